@@ -110,6 +110,7 @@ type Exec struct {
 	trail      []decision
 	known      map[*Term]bool
 	pending    []pendingAssert
+	replayPos  int
 	prefix     []decision
 	solDepth   int // number of trail decisions currently asserted on the solver stack
 	steps      int64
@@ -436,6 +437,14 @@ func (ex *Exec) nondet(name string, k types.BasicKind) value {
 	n := ex.nondetCnt[name]
 	ex.nondetCnt[name] = n + 1
 	full := fmt.Sprintf("%s#%d", name, n)
+	if rp := ex.sh.cfg.Replay; rp != nil {
+		// interpreted replay: the model's value, concretely
+		v := rp.Vars[full]
+		if kindSigned(k) {
+			v = uint64(sx(v, kindWidth(k)))
+		}
+		return mkInt(k, v)
+	}
 	full = sanitize(full)
 	t := ex.tt.Var(full, kindWidth(k))
 	ex.nondets = append(ex.nondets, t)
@@ -561,6 +570,7 @@ func (ex *Exec) resetPath(prefix []decision) {
 	ex.trail = ex.trail[:0]
 	ex.known = map[*Term]bool{}
 	ex.pending = nil
+	ex.replayPos = 0
 	ex.prefix = prefix
 	ex.globals = map[*ssa.Global]*value{}
 	ex.pkgInit = map[*ssa.Package]int{}
